@@ -86,12 +86,16 @@ def run(ctx):
         chosen += rnd.sample(one, min(16, len(one)))
         chosen += rnd.sample(two, min(8, len(two)))
     else:
-        chosen += [s for s in entry if any(x in s["sched"] for x in ("x", "xa", "xb"))]
+        ecr = [s for s in entry if any(x in s["sched"] for x in ("x", "xa", "xb"))]
+        nor = [l for l in CANON if l != "r"]
+        canon = [s for s in ecr if [l for l in s["sched"] if l != "r"] == nor]
+        rest_e = [s for s in ecr if s not in canon]
+        chosen += canon + rnd.sample(rest_e, min(260, len(rest_e)))
         crashy = [s for s in sched if any(x in s["sched"] for x in ("x", "xa", "xb"))]
-        small = [s for s in crashy if len(s["writes"]) <= 2]
+        one = [s for s in crashy if len(s["writes"]) == 1]       # every one-write schedule, two crashes
+        two = [s for s in crashy if len(s["writes"]) == 2]
         big = [s for s in crashy if len(s["writes"]) > 2]
-        chosen += rnd.sample(small, min(900, len(small)))
-        chosen += rnd.sample(big, min(600, len(big)))
+        chosen += one + rnd.sample(two, min(160, len(two))) + rnd.sample(big, min(80, len(big)))
     ctx.log("TLC emitted %d entry-level and %d schedule-level behaviours; replaying %d" % (len(entry), len(sched), len(chosen)))
     ctx.note("generated_behaviours", {"entry_level": len(entry), "schedule_level": len(sched), "replayed": len(chosen),
                                       "gen_entry_states": gen_e.distinct, "gen_sched_states": gen_s.distinct})
